@@ -70,6 +70,20 @@ def grid(run):
                         pts.append((dim, st, n, d, tuple(t), 'valid-free'))
                 pts.append((dim, False, -1, 1, s, 'grid-2d-subunit-rate' if sub else 'valid-rate-free'))
                 pts.append((dim, True, -1, 1, s, 'grid-2d-subunit-rate' if sub else 'valid-rate-free'))
+    # settings valid for the OTHER dimensionality: a (1, b, c) block given to (or resolved by) the 3-D entry point, a 3-D block given to
+    # the 2-D entry point
+    for r in RATES:
+        vox = int(32768 / r)
+        for b in p2:
+            if vox % b == 0 and vox // b >= 4:
+                for (st, n, d) in bits_forms(r):
+                    pts.append((3, st, n, d, (1, b, vox // b), 'near-miss'))
+                    pts.append((3, st, n, d, (-1, b, vox // b), 'near-miss'))
+                pts.append((3, False, -1, 1, (1, b, vox // b), 'near-miss'))
+        for a, b in ((4, 4), (8, 8), (4, 16)):
+            if vox % (a * b) == 0 and vox // (a * b) >= 4:
+                for (st, n, d) in bits_forms(r)[:1]:
+                    pts.append((2, st, n, d, (a, b, vox // (a * b)), 'near-miss'))
     # near misses and the rest of the grid
     vals = [-1, 1, 2, 3, 4, 5, 6, 7, 8, 12, 16, 24, 32, 64, 128, 256, 512, 1024, 2048, 4096, 8192]
     bitsv = [(st, n, 1) for st in (False, True) for n in list(range(-16, 0)) + list(range(1, 33))] + \
